@@ -314,7 +314,7 @@ def _post_shapes(cx, spec):
     import random
     from . import rng as rng_mod
     p = cx.p
-    if not any(p.get(k, 0) > 0 for k in ("p_empty_routing", "p_routing_shorthand", "p_keyword_update_field", "p_struct_fields", "p_mixin_mixed_body", "p_stdlib_file_name")):
+    if not any(p.get(k, 0) > 0 for k in ("p_empty_routing", "p_routing_shorthand", "p_keyword_update_field", "p_struct_fields", "p_mixin_mixed_body", "p_stdlib_file_name", "p_mistyped_max_results", "p_streamed_list")):
         return
     prng = random.Random(int(rng_mod.digest(spec)[:16], 16))
     methods = [(fs, s, m) for fs, s, m in all_methods(spec)]
@@ -364,10 +364,33 @@ def _post_shapes(cx, spec):
         f = next((f for f in spec["files"] if f.get("role") == "common"), None)
         if f is not None:
             f["name"] = f["name"].rsplit("/", 1)[0] + "/" + prng.choice(p.get("stdlib_file_names") or ["logging"]) + ".proto"
+    if prng.random() < p.get("p_mistyped_max_results", 0):
+        # a List request with a valid page_size AND a legacy-named max_results of a type the rule does not allow
+        cands = []
+        for fs, s, m in methods:
+            req = next((x for x in fs.get("messages", ()) if "." + fs["package"] + "." + x["name"] == m["input"]), None)
+            if req is not None and m["name"].startswith("List") and any(f["name"] == "page_size" for f in req["fields"]) \
+                    and not any(f["name"] == "max_results" or f["number"] == 21 for f in req["fields"]):
+                cands.append(req)
+        if cands:
+            f = prng.choice([{"type": "string"}, {"type": "double"}, {"type": "message", "type_name": ".google.protobuf.StringValue"},
+                             {"type": "message", "type_name": ".google.protobuf.Int64Value"}])
+            prng.choice(cands)["fields"].append(dict(f, name="max_results", number=21))
+    if prng.random() < p.get("p_streamed_list", 0):
+        # a SERVER-STREAMING rpc that reuses the (paging-shaped) request and response messages of a List method
+        cands = [(fs, s, m) for fs, s, m in methods if m["name"].startswith("List") and not m.get("server_streaming")
+                 and not m.get("client_streaming") and all(x["name"] != "Stream" + m["name"][4:] for x in s["methods"])]
+        if cands:
+            fs, s, m = prng.choice(cands)
+            sm = {"name": "Stream" + m["name"][4:], "input": m["input"], "output": m["output"], "server_streaming": True}
+            if m.get("http"):
+                sm["http"] = {"verb": m["http"]["verb"], "path": m["http"]["path"] + ":stream"}
+            s["methods"].append(sm)
     if prng.random() < p.get("p_mixin_mixed_body", 0):
         # a mixin http rule whose bindings do not agree on `body` (one carries "*", another none: its fields travel in the query)
         rules = [r for r in ((spec.get("service_yaml") or {}).get("http") or {}).get("rules", [])
-                 if r["selector"].startswith(("google.longrunning.", "google.iam.v1.", "google.cloud.location.")) and r.get("body") == "*"]
+                 if r["selector"].startswith(("google.longrunning.", "google.iam.v1.", "google.cloud.location.")) and r.get("body") == "*"
+                 and not r["selector"].endswith(".SetIamPolicy")]      # (a Policy cannot travel in a query string: repeated messages)
         if rules:
             r = prng.choice(rules)
             verb = next(k for k in r if k in ("get", "post", "delete"))
